@@ -375,9 +375,11 @@ impl<const MAX_NUMBER_OF_BUCKETS: usize> FixedSizePoolAllocator<MAX_NUMBER_OF_BU
             core::ptr::NonNull::<u8>::new_unchecked(new_self.next_free_index.as_mut_ptr().cast())
         };
 
+        // the index set requires capacity + 1 entries: `next_free_index` and the directly following
+        // `next_free_index_plus_one`
         let allocator = BumpAllocator::new(
             data_ptr,
-            core::mem::size_of_val(new_self.next_free_index.as_ref()),
+            core::mem::size_of::<Self>() - core::mem::offset_of!(Self, next_free_index),
         );
         unsafe {
             new_self
